@@ -7,6 +7,7 @@ import (
 	"context"
 	"errors"
 	"fmt"
+	"io"
 	"math/rand/v2"
 	"runtime"
 	"sync"
@@ -269,6 +270,16 @@ func unaryCase(idx int64, r *rand.Rand) {
 	cfg["context"] = ctxMode
 	if ctxMode != "live" {
 		rt.Count("calls_with_a_dead_context", 1)
+		if r.IntN(2) == 0 {
+			// the wrapped call gives up because its context ended and hands back the context's own error, verbatim: that
+			// is the call's own result like any other
+			handlerErr = context.Canceled
+			if ctxMode == "expired" {
+				handlerErr = context.DeadlineExceeded
+			}
+			cfg["handler_error"] = "the context's own error: " + handlerErr.Error()
+			rt.Count("calls_whose_result_is_the_error_of_their_ended_context", 1)
+		}
 	}
 	if server {
 		ic := gclGrpc.UnaryServerInterceptor(opts...)
@@ -490,6 +501,16 @@ func streamCase(idx int64, r *rand.Rand) {
 			var opErr error
 			if r.IntN(2) == 0 {
 				opErr = fmt.Errorf("stream op error %d", i)
+				switch r.IntN(6) {
+				case 0:
+					// the sentinels a real stream returns; the operations after them are gated and passed through like any other
+					opErr = io.EOF
+					rt.Count("stream_ops_returning_io_EOF", 1)
+				case 1:
+					opErr = []error{context.Canceled, context.DeadlineExceeded, io.ErrUnexpectedEOF}[r.IntN(3)]
+				case 2:
+					opErr = status.Error(codeChoices[r.IntN(len(codeChoices))], "stream status")
+				}
 			}
 			fs.recvErr, fs.sendErr = opErr, opErr
 			clsOut = r.IntN(3)
